@@ -187,8 +187,13 @@ func c17Paths(depth int) []string {
 		}
 		level = next
 	}
+	// application paths that merely begin with the characters of the proxy prefix, or lie under it
+	// without being one of the proxy's endpoints: they are the upstreams' like any other path
+	out = append(out, c17NearPrefixPaths...)
 	return out
 }
+
+var c17NearPrefixPaths = []string{"/oauth2-status/info", "/oauth2.json", "/oauth2foo/bar", "/oauth2x", "/oauth2/unknown", "/oauth2/unknown/deeper", "/oauth2/sign_inx", "/a/oauth2/sign_in"}
 
 type c17HeaderSet struct {
 	Name string
